@@ -162,7 +162,7 @@ impl Prop for C02 {
 
     fn rule(&self) -> String {
         "random A2S server states (8 engine classes, full-range numeric fields, UTF-8 strings, all EDF flag combinations, The Ship fields, \
-         obsolete GoldSrc layout with mod block, 0-255 players, 0-400 rules and a fixed 65535-rule case) with a random transport per section \
+         obsolete GoldSrc layout with mod block, 0-255 players, 0-400 rules, a fixed 65535-rule case, and two compressed split replies of 0.6 MB and 3.9 MB decompressed size) with a random transport per section \
          (0-3 challenge rounds, single datagram / Source split 2-15 / GoldSrc split / bzip2-compressed split via an independent libbz2) are \
          served by a reactive reference server; valve::query (and, for ten per-game wrappers, games::<game>::query) must return exactly the \
          expected response. All 32 EDF masks are emitted deterministically in every run. non-trivial = an EDF flag, a player, a rule, a \
@@ -249,6 +249,16 @@ impl Prop for C02 {
                 st.players.clear();
                 st.rules.clear();
                 st.info.edf = None;
+                fit(&mut st);
+                v.push(Case { state: st, wrapper: None });
+            }
+            // compressed split replies whose decompressed size is large but legal (the client's sanity bound is 4 MiB): 65535 rules of
+            // about 9 bytes (0.6 MB) and of about 60 bytes (3.9 MB)
+            for (i, width) in [1usize, 50].into_iter().enumerate() {
+                let mut st = sample_one(&state_for(EngineSel::SourceNone), "C02-bigz", i as u64);
+                st.rules = (0 .. 65535).map(|n| (format!("r{n}"), format!("{:0width$}", n % 7, width = width))).collect();
+                st.t_rules.framing = Framing::Split { cuts: vec![], compressed: true };
+                st.t_rules.challenges.clear();
                 fit(&mut st);
                 v.push(Case { state: st, wrapper: None });
             }
